@@ -129,7 +129,8 @@ PROPS = {
                                          "distinct recordings get distinct millisecond time stamps (hypothesis wf_calls; the harness waits 2 ms between recordings)",
                                          "go-cptv's reader is the decoder: a file 'decodes' if every frame reads without error up to EOF and the count equals the header's NumFrames"]},
     "C16": {"stages": [{"harness": "RACE", "corr": "corr.C16", "n": {"quick": 1, "thorough": 1}, "shard": 20},
-                       {"harness": "TESTREC", "corr": "corr.C18lag", "n": {"quick": 4, "thorough": 16}, "shard": 8}],
+                       {"harness": "TESTREC", "corr": "corr.C18lag", "n": {"quick": 4, "thorough": 16}, "shard": 8},
+                       {"harness": "PROCSNAP", "corr": "corr.C18lag", "n": {"quick": 150, "thorough": 2000}, "shard": 100}],
             "theorems": "props/C16.v",
             "level_text": "Coq theorem on an interleaving model (every schedule of the frame loop and a snapshot requester over ring + mutex: the copy is one whole frame) - partial; "
                           "the data-race clause is a finite access table decided by vm_compute and tied to the code by the Go race detector (level 'other' for that clause): "
@@ -173,7 +174,8 @@ PROPS = {
             "trusted_base": DET_TB + ["theorem C15_background_and_threshold depends on the standard library's classical real-number axioms through Flocq (named in Print Assumptions); C15_partial is the axiom-free form with the four IEEE-754 facts as hypotheses"]},
     "C17": {"stages": [{"harness": "PROC", "corr": "corr.C17", "corr_src": "corr.C17src", "n": {"quick": 400, "thorough": 4000}, "shard": 20},
                        {"harness": "E2E", "corr": "corr.E2E14", "n": {"quick": 16, "thorough": 150}, "shard": 1},
-                       {"harness": "TESTREC", "corr": "corr.C18lag", "n": {"quick": 4, "thorough": 16}, "shard": 8}],
+                       {"harness": "TESTREC", "corr": "corr.C18lag", "n": {"quick": 4, "thorough": 16}, "shard": 8},
+                       {"harness": "RECHDR", "corr": "corr.C18lag", "n": {"quick": 3, "thorough": 40}, "shard": 50}],
             "theorems": "props/C17.v",
             "rule": (PROC_RULE % "fault-free continuous and test sinks, motion-sink refusals; compared projection: continuous and test sinks; spec S17c && S17t") +
                     " || wiring: end-to-end sessions: generated config.toml (min/max/preview secs or defaults, trigger frames, throttle off / transparent / impossible, constant recorder, window none / closed, min-disk-space 0 / huge, device id/name, location, 11 motion keys each written or left to the camera-model default for lepton3 / lepton3.5 / boson), camera header encoded as the camera daemon does, 60-180 frames (8x6..16x12, a flickering hot blob that appears/moves/disappears, FFC events, bad frames, 'clear' markers, extreme values) sent in random chunk sizes over a unix socket to the real ParseConfig + handleConn (driver binary), every finished .cptv decoded with the standard reader and compared with model/System.v: per file threshold, background, frame ids; frame contents (pixels, times, temperatures) and header view compared by the harness || test recordings through the real wiring: service.TakeTestRecording() called after every k-th completed frame of a connection fed one uniform frame at a time (driver mode snapseq): one finished file per request holding exactly the 21 following frames, no temporaries left (compared projection of the sessions: frame ids of every file in constant-recordings/ and in the output directory - the continuous recorder tiles the stream and leaves the motion recorder's files alone - with throttling / window / disk refusals active on the motion recorder)",
